@@ -105,15 +105,25 @@ const Statement * FORStatement::doit(Context& ctx) const
   else
   {
     RT * data = reinterpret_cast<RT*>(ctx.topControlData());
-    /* var is type safe, so it can be read/write without care */
-    Integer nxt = *(data->iterator->integer()) + data->step;
-    if ((data->step > 0 && nxt > data->max) ||
-        (data->step < 0 && nxt < data->min))
+    /* var is type safe, but the body could have set it to null */
+    Integer * it = data->iterator->integer();
+    if (it == nullptr)
+      throw RuntimeError(EXC_RT_NOT_INTEGER);
+    /* leave when the next value passes the limit; decided without computing a value that
+     * overflows, else a loop ending at the largest or smallest integer never terminates */
+    bool end;
+    if (data->step > 0)
+      end = (*it > data->max ||
+             static_cast<uint64_t>(data->max) - static_cast<uint64_t>(*it) < static_cast<uint64_t>(data->step));
+    else
+      end = (*it < data->min ||
+             static_cast<uint64_t>(*it) - static_cast<uint64_t>(data->min) < static_cast<uint64_t>(-data->step));
+    if (end)
     {
       ctx.unstackControl();
       return _next;
     }
-    *(data->iterator->integer()) = nxt;
+    *it += data->step;
   }
 
   /* it should run with the given context, and will throw on error */
